@@ -182,7 +182,13 @@ class OdRun(object):
         if n == "reorder":
             ep = self.eff("odict", op[1])
             if len(set(L(k) for k, _ in ep)) != len(ep):
-                return UNJUDGED       # distinct keys of the argument merge when lower-cased: order unspecified
+                # distinct keys of the argument merge when lower-cased: the resulting order is not
+                # specified, the resulting mapping is (checked in resync)
+                want = dict(m)
+                for k, v in ep:
+                    want[L(k)] = v
+                self.unordered = want
+                return UNJUDGED
             for k, v in ep:
                 k = L(k)
                 m.pop(k, None)
@@ -282,7 +288,16 @@ class OdRun(object):
         return s
 
     def resync(self):
+        problem = None
+        want = getattr(self, "unordered", None)
+        self.unordered = None
+        if want is not None:
+            got = dict(self.d.items())
+            if got != want or sorted(dict.keys(self.d)) != sorted(want):
+                problem = "mapping after the operation is %r, expected (in any order) %r" % (
+                    sorted(got.items()), sorted(want.items()))
         self.m = dict(self.d.items())
+        return problem
 
 
 def _haskey_upper(op):
@@ -321,7 +336,7 @@ class OdSpec(object):
             return "%s/ior/keys-not-tracked" % ("odict" if self.name in ("odict", "lodict") else self.name)
         if self.name == "lodict" and _haskey_upper(div["op"]) and base in (
                 "pop", "insert", "create", "sift", "reorder") and div["kind"] in ("raised", "return", "state",
-                                                                                 "accepted"):
+                                                                                 "accepted", "invariant"):
             # causal test: the same history with the failing operation's keys written in lower case agrees
             ops = div.get("ops")
             if ops:
